@@ -90,3 +90,54 @@ func VerifC01SQLiteTxDiscipline() {
 		vrt.Assert("C01.tx.batch-all-or-nothing-count", succeeded == 2)
 	}
 }
+
+// verif:harness props=C01 tier=quick weight=30
+// verif:bounds SQLiteStore.init + migrate (what NewSQLiteStore runs on every start) with EVERY database call failing or answering arbitrarily: the journal_mode pragma answers wal / WAL / delete, the stored schema version is absent or any value 0..7 (the binary knows 6), every PRAGMA / DDL / BEGIN / COMMIT may fail
+func VerifC01SQLiteOpen() {
+	s := &SQLiteStore{db: vrt.StubDB(), nowFn: time.Now, metrics: newSQLiteRuntimeMetrics(), notify: make(chan struct{})}
+	err := s.init()
+	tr := vrt.Trace()
+	begins := trCount(tr, "Exec:ok:BEGIN IMMEDIATE")
+	closes := trCount(tr, "Exec:ok:COMMIT") + trCount(tr, "Exec:err:COMMIT") + trCount(tr, "Exec:ok:ROLLBACK") + trCount(tr, "Exec:err:ROLLBACK")
+	vrt.Assert("C01.open.no-transaction-left-open", begins <= 1 && (begins == 0 || closes >= 1))
+	if trIndex(tr, 0, "Conn:ok") >= 0 {
+		vrt.Assert("C01.open.connection-released", trIndex(tr, 0, "ConnClose") >= 0)
+	}
+	ddl := func(from int) int {
+		n := 0
+		for i := from; i < len(tr); i++ {
+			if strings.HasPrefix(tr[i], "Exec:ok:CREATE") || strings.HasPrefix(tr[i], "Exec:ok:ALTER") || strings.HasPrefix(tr[i], "Exec:ok:DROP") || strings.HasPrefix(tr[i], "Exec:ok:INSERT OR REPLACE INTO schema_migrations") {
+				n++
+			}
+		}
+		return n
+	}
+	b := trIndex(tr, 0, "Exec:ok:BEGIN IMMEDIATE")
+	if err != nil {
+		vrt.Cover("open.refused")
+		// a store that refuses to open has changed nothing durably
+		vrt.Assert("C01.open.error-means-nothing-committed", trIndex(tr, 0, "Exec:ok:COMMIT") < 0)
+		return
+	}
+	vrt.Cover("open.ok")
+	// durability settings are in force before any table is touched
+	okWal := trIndex(tr, 0, "ScanString:wal") >= 0 || trIndex(tr, 0, "ScanString:WAL") >= 0
+	vrt.Assert("C01.open.success-means-journal-mode-wal-confirmed", okWal && trIndex(tr, 0, "ScanString:delete") < 0)
+	sy := trIndex(tr, 0, "Exec:ok:PRAGMA synchronous=FULL")
+	vrt.Assert("C01.open.success-means-synchronous-full-before-the-first-transaction", sy >= 0 && b > sy)
+	c := trIndex(tr, b+1, "Exec:ok:COMMIT")
+	vrt.Assert("C01.open.schema-changes-inside-one-committed-transaction", b >= 0 && c > b && ddl(0) == ddl(b+1) && ddl(c+1) == 0)
+	vrt.Assert("C01.open.no-failed-statement-and-no-rollback-inside-the-committed-transaction", trIndex(tr, b+1, "Exec:err:") < 0 && trIndex(tr, b+1, "Exec:ok:ROLLBACK") < 0)
+	// the stored version: absent / older => every missing migration ran, in order, and the version row was written; newer => refused
+	vrt.Assert("C01.open.version-was-read", trIndex(tr, b+1, "QueryRow:SELECT version FROM schema_migrations") > b)
+	ran := 0
+	for i := b + 1; i < c; i++ {
+		if strings.HasPrefix(tr[i], "Exec:ok:") && !strings.HasPrefix(tr[i], "Exec:ok:CREATE TABLE IF NOT EXISTS schema_migrations") && !strings.HasPrefix(tr[i], "Exec:ok:INSERT OR REPLACE INTO schema_migrations") {
+			ran++
+		}
+	}
+	wrote := trIndex(tr, b+1, "Exec:ok:INSERT OR REPLACE INTO schema_migrations") > b
+	vrt.Observe("migrations-run", ran)
+	vrt.Assert("C01.open.migrations-run-implies-version-row-written", ran == 0 || wrote)
+	vrt.Assert("C01.open.at-most-the-known-migrations", ran <= schemaVersion)
+}
